@@ -327,6 +327,20 @@ func checkUnify(c *UnifyCase) *Outcome {
 		}
 		A, B := X.Subst(sigma), Y.Subst(sigma)
 		R := ctx.From(r).Subst(sigma)
+		// the type Unify hands back is a type like any other: equal, in both orientations, to a
+		// freshly built type of the same structure, and unifiable with it
+		fresh := ctx.Fork().To(ctx.From(r))
+		if e1, p1 := guardEquals(r, fresh); p1 != nil || !e1 {
+			return bad("the type returned by Unify, %s, is not equal to a freshly built type of the same structure (Equals(result, fresh)=%v panic=%v; x=%s y=%s)", ctx.From(r).OrderString(), e1, p1, X.OrderString(), Y.OrderString())
+		}
+		if e2, p2 := guardEquals(fresh, r); p2 != nil || !e2 {
+			return bad("a freshly built type of the same structure is not equal to the type returned by Unify, %s (Equals(fresh, result)=%v panic=%v; x=%s y=%s)", ctx.From(r).OrderString(), e2, p2, X.OrderString(), Y.OrderString())
+		}
+		if !ctx.From(r).HasKind(model.TBot) {
+			if r3, p3 := guardUnify(fresh, r, map[string]*types.Type{}); p3 != nil || r3 == nil {
+				return bad("a freshly built type does not unify with the structurally identical type returned by Unify, %s (panic=%v; x=%s y=%s)", ctx.From(r).OrderString(), p3, X.OrderString(), Y.OrderString())
+			}
+		}
 		if botFree {
 			if !model.Equal(A, B) {
 				return bad("Unify succeeded but σx=%s ≠ σy=%s, σ=%v (x=%s y=%s)", A, B, fmtSubst(sigma), X, Y)
@@ -691,7 +705,7 @@ func enumTypes(withBot bool) []*model.Type {
 var c17bot = Register(&Prop[TypingCase]{ID: "C17", Name: "empty-container-rules-in-the-checker", Gen: genBottomTypingCase, Check: checkC05})
 
 func TestC17(t *testing.T) {
-	R.Rule = "pairs (x,y[,z]) of types over num/str/bool/time, variables a,b,c (repeated), list, map, object (permuted field orders), optional, function, argument tuple outermost; built both with fresh nodes and with shared sub-terms, parameter / tuple element lists also carved consecutively from one backing array (spare capacity = the next list), the types read back unchanged after Equals and Equals asked twice; exhaustive over all types of depth<=2/width<=2 over {num,str,'a,'b}; systems of 2-5 equations over one variable pool (chains, aliases, cycles closed through k bindings, either side, every meeting order), exhaustively for 3 variables with right sides among {a,b,c,list[a],list[b],list[c],num,{p:a,q:num},{p:b,q:num},{p:c,q:num}}; plus generated programs mutated so that an expression of the empty-container element type stands where another type is required (operands, keys, elements, arguments of named callees and of function values), decided by yae's checker as by the reference typing rules; non-trivial = repeated variable inside a container, or model-equal types with different field order, or an occurs-check pair, or shared sub-terms of depth>1"
+	R.Rule = "pairs (x,y[,z]) of types over num/str/bool/time, variables a,b,c (repeated), list, map, object (permuted field orders), optional, function, argument tuple outermost; built both with fresh nodes and with shared sub-terms, parameter / tuple element lists also carved consecutively from one backing array (spare capacity = the next list), the types read back unchanged after Equals and Equals asked twice; the type returned by a successful Unify is equal in both orientations to, and unifiable with, a freshly built type of the same structure; exhaustive over all types of depth<=2/width<=2 over {num,str,'a,'b}; systems of 2-5 equations over one variable pool (chains, aliases, cycles closed through k bindings, either side, every meeting order), exhaustively for 3 variables with right sides among {a,b,c,list[a],list[b],list[c],num,{p:a,q:num},{p:b,q:num},{p:c,q:num}}; plus generated programs mutated so that an expression of the empty-container element type stands where another type is required (operands, keys, elements, arguments of named callees and of function values), decided by yae's checker as by the reference typing rules; non-trivial = repeated variable inside a container, or model-equal types with different field order, or an occurs-check pair, or shared sub-terms of depth>1"
 	R.Assume = []string{"model.Equal / refMatch (harness) define structural identity and instantiation", "⊥ only generated as container element; ⊤ not generated"}
 	reportKnown(t, "C17")
 	runRegress(t, "C17")
